@@ -1,5 +1,175 @@
+import Casket.Model.Limits
+import Casket.Spec.Limits
 import Driver.Proto
-/- Streams of C17 (stub: not built yet). -/
+/-
+Streams of C17.
+  c17.reader / c17.scope   cs  table  path  data  script  errWithLast  endErr  bufs
+        table = comma list of  <hexpath>=<limit>   (the `body` lines of a limits block, in file order)
+        out   = comma list of  <hexbytes>:<err>    one per Read of the innermost handler; err - | eof | big | other
+  c17.match     cs  path  base                     out = 0 | 1           (httpserver.Path.Matches)
+  c17.listener  group                              out = read header write idle maxHeaderBytes
+        group = ';' list of  r/h/w/i/hdr  (timeouts: - unset, else ns; hdr: 0 unset)
+  c17.proxy     cs  table  path  data  framing  buffered   out = <status returned by the chain> TAB <ok|bad>
+-/
 namespace Driver.C17
-def streams : List Driver.Stream := []
+open Casket.Limits Casket.LimitsSpec
+
+def parseBool (s : String) : Option Bool :=
+  if s = "1" then some true else if s = "0" then some false else none
+
+def parseEntry (s : String) : Option (Bytes × Nat) :=
+  match s.splitOn "=" with
+  | [p, l] => do pure (← Driver.unhex p, ← l.toNat?)
+  | _ => none
+
+def parseTable (s : String) : Option (List (Bytes × Nat)) :=
+  if s = "" then some [] else (s.splitOn ",").mapM parseEntry
+
+def parseErr : String → Option RErr
+  | "eof" => some .eof
+  | "big" => some .tooLarge
+  | "other" => some .other
+  | _ => none
+
+def showErr : Option RErr → String
+  | none => "-"
+  | some .eof => "eof"
+  | some .tooLarge => "big"
+  | some .other => "other"
+
+def showTrace (t : Trace) : String :=
+  ",".intercalate (t.map fun x => Driver.hex x.1 ++ ":" ++ showErr x.2)
+
+def parseRead (s : String) : Option (Bytes × Option RErr) :=
+  match s.splitOn ":" with
+  | [h, e] => do
+    let bs ← Driver.unhex h
+    if e = "-" then pure (bs, none) else pure (bs, some (← parseErr e))
+  | _ => none
+
+def parseTrace (s : String) : Option Trace :=
+  if s = "" then some [] else (s.splitOn ",").mapM parseRead
+
+structure Case where
+  cs : Bool
+  raw : List (Bytes × Nat)
+  path : Bytes
+  under : Under
+  bufs : List Nat
+
+def parseCase : List String → Option Case
+  | [cs, tb, p, d, sc, ewl, ee, bufs] => do
+    pure { cs := ← parseBool cs, raw := ← parseTable tb, path := ← Driver.unhex p,
+           under := { data := ← Driver.unhex d, script := ← Driver.natList sc,
+                      errWithLast := ← parseBool ewl, endErr := ← parseErr ee },
+           bufs := ← Driver.natList bufs }
+  | _ => none
+
+def readerModel (f : List String) : String :=
+  match parseCase f with
+  | none => "bad-case"
+  | some c => showTrace (serveBody c.cs (buildTable c.raw) c.path c.under c.bufs)
+
+def readerJudge (f : List String) (out : String) : String :=
+  match parseCase f, parseTrace out with
+  | some c, some t => handlerVerdict c.cs c.raw c.path c.under.data c.under.endErr t
+  | _, _ => "bad:unparsable:" ++ out
+
+def matchModel : List String → String
+  | [cs, p, b] =>
+    match parseBool cs, Driver.unhex p, Driver.unhex b with
+    | some cs, some p, some b => if pathMatches cs p b then "1" else "0"
+    | _, _, _ => "bad-case"
+  | _ => "bad-case"
+
+def parseSetting (s : String) : Option TSetting :=
+  if s = "-" then some none else s.toNat?.map some
+
+def parseSite (s : String) : Option (SiteTimeouts × Nat) :=
+  match s.splitOn "/" with
+  | [r, h, w, i, hdr] => do
+    pure ({ read := ← parseSetting r, header := ← parseSetting h, write := ← parseSetting w,
+            idle := ← parseSetting i }, ← hdr.toNat?)
+  | _ => none
+
+def parseGroup (s : String) : Option (List (SiteTimeouts × Nat)) :=
+  if s = "" then some [] else (s.splitOn ";").mapM parseSite
+
+def listenerModel : List String → String
+  | [g] =>
+    match parseGroup g with
+    | none => "bad-case"
+    | some g =>
+      let t := makeTimeouts (g.map (·.1)) defaultTimeouts
+      let h := makeHeaderLimit (g.map (·.2))
+      s!"{t.read} {t.header} {t.write} {t.idle} {h}"
+  | _ => "bad-case"
+
+def listenerJudge (f : List String) (out : String) : String :=
+  match f, (out.splitOn " ").mapM String.toNat? with
+  | [g], some [r, h, w, i, hdr] =>
+    match parseGroup g with
+    | none => "bad:unparsable:case"
+    | some g =>
+      let v := timeoutVerdict (g.map (·.1)) defaultTimeouts { read := r, header := h, write := w, idle := i }
+      if v != "ok" then v else headerVerdict (g.map (·.2)) hdr
+  | _, _ => "bad:unparsable:" ++ out
+
+structure PCase where
+  cs : Bool
+  raw : List (Bytes × Nat)
+  path : Bytes
+  data : Bytes
+  chunked : Bool
+
+def parsePCase : List String → Option PCase
+  | [cs, tb, p, d, fr, _buffered] => do
+    pure { cs := ← parseBool cs, raw := ← parseTable tb, path := ← Driver.unhex p,
+           data := ← Driver.unhex d, chunked := fr == "chunked" }
+  | _ => none
+
+def proxyModel (f : List String) : String :=
+  match parsePCase f with
+  | none => "bad-case"
+  | some c => s!"{proxyServe c.cs (buildTable c.raw) c.path c.data c.chunked}\tok"
+
+def proxyJudge (f : List String) (out : String) : String :=
+  match parsePCase f, out.splitOn "\t" with
+  | some c, [st, b] =>
+    match st.toNat? with
+    | some st => proxyVerdict c.cs c.raw c.path c.data st (b == "ok")
+    | none => "bad:unparsable:" ++ out
+  | _, _ => "bad:unparsable:" ++ out
+
+/-- c17.wire: only the delivered bytes and the first error are observable (net/http chooses the
+chunking); by C17_error_iff_over they do not depend on it, so the model drains an unchunked body. -/
+def wireCase : List String → Option (Bool × List (Bytes × Nat) × Bytes × Bytes × Nat)
+  | [cs, tb, p, d, _fr, buf] => do
+    pure (← parseBool cs, ← parseTable tb, ← Driver.unhex p, ← Driver.unhex d, ← buf.toNat?)
+  | _ => none
+
+def wireModel (f : List String) : String :=
+  match wireCase f with
+  | none => "bad-case"
+  | some (cs, raw, p, d, buf) =>
+    let t := serveBody cs (buildTable raw) p (wireBody d) (List.replicate (d.length + 8) buf)
+    Driver.hex (delivered t) ++ "\t" ++ showErr (firstErr t)
+
+def wireJudge (f : List String) (out : String) : String :=
+  match wireCase f, out.splitOn "\t" with
+  | some (cs, raw, p, d, _), [h, e] =>
+    match Driver.unhex h, (if e = "-" then some none else (parseErr e).map some) with
+    | some got, some err => handlerVerdict cs raw p d .eof [(got, err)]
+    | _, _ => "bad:unparsable:" ++ out
+  | _, _ => "bad:unparsable:" ++ out
+
+def streams : List Driver.Stream := [
+  { name := "c17.wire", model := wireModel, judge := wireJudge },
+  { name := "c17.reader", model := readerModel, judge := readerJudge },
+  { name := "c17.scope", model := readerModel, judge := readerJudge },
+  { name := "c17.match", model := matchModel, judge := fun _ _ => "ok" },
+  { name := "c17.listener", model := listenerModel, judge := listenerJudge },
+  { name := "c17.proxy", model := proxyModel, judge := proxyJudge }
+]
+
 end Driver.C17
